@@ -114,6 +114,7 @@ type replayFile struct {
 	Params    map[string]int `json:"params"`
 	Decisions []int32        `json:"decisions"`
 	Trace     []string       `json:"trace,omitempty"`
+	Outs      []string       `json:"observations,omitempty"`
 	Note      string         `json:"note,omitempty"`
 }
 
@@ -216,7 +217,7 @@ func ReplayNative(repo, harnessDir, pkgDir string, v *Violation, keep string) (s
 
 func writeReplayFile(path, property, pkgDir string, v *Violation) error {
 	rf := replayFile{Harness: v.Harness, Label: v.Label, Kind: v.Kind, Msg: v.Msg, Property: property, Pkg: pkgDir,
-		Tape: v.Tape, Params: v.Params, Decisions: v.Decisions, Trace: v.Trace}
+		Tape: v.Tape, Params: v.Params, Decisions: v.Decisions, Trace: v.Trace, Outs: v.Outs}
 	b, err := json.MarshalIndent(rf, "", " ")
 	if err != nil {
 		return err
